@@ -956,7 +956,7 @@ fn explore(ctx: &Ctx) {
                                 for s in &v.slots {
                                     ctx.count(&format!("nontrivial_position:{:?}", s.kind), 1);
                                 }
-                                if ctx.want_sample() && v.n_params >= 2 && route == Route::PrepareDeclared {
+                                if ctx.want_sample() && (v.n_params >= 2 || mc_core::stable_hash(&(&v.template, a, label)) % 40 == 0) {
                                     ctx.sample(json!({"query": q.sql, "placeholder_text": v.positional(), "declared": declared, "values": a, "route": route.tag(), "db": label, "literal_twin": literal_sql, "rows": show_rows(&rows)}));
                                 }
                             }
